@@ -303,3 +303,47 @@ f = outer()
 	}
 	zzReach("end")
 }
+
+// zzH02_manyargs: calls with 254..257 positional or named arguments (around the documented
+// 255 limit) are executed or rejected with an error — never a host panic.
+func zzH02_manyargs() {
+	n := 254 + zzChoice("n", 4)
+	named := zzChoice("named", 2) == 1
+	src := "def f(*a, **k):\n    return len(a) + len(k)\nr = f("
+	for i := 0; i < n; i++ {
+		if i > 0 {
+			src += ", "
+		}
+		if named {
+			src += "k" + zzItoa(i) + "=1"
+		} else {
+			src += "1"
+		}
+	}
+	src += ")\n"
+	thread := &Thread{Name: "t"}
+	thread.SetMaxExecutionSteps(100000)
+	var err error
+	panicked := false
+	fatal := zzFatal("C02.manyargs.fatal", func() {
+		panicked = zzCatch(func() { _, err = ExecFileOptions(&syntax.FileOptions{}, thread, "m.star", src, nil) })
+	})
+	zzAssert(zzNot(fatal), "C02.manyargs.nofatal")
+	zzAssert(zzNot(panicked), "C02.manyargs.nopanic")
+	if !panicked && !fatal {
+		zzAssert((err != nil) == (n > 255), "C02.manyargs.limit_255")
+	}
+	zzReach("end")
+}
+
+func zzItoa(i int) string {
+	if i == 0 {
+		return "0"
+	}
+	s := ""
+	for i > 0 {
+		s = string(rune('0'+i%10)) + s
+		i /= 10
+	}
+	return s
+}
